@@ -171,6 +171,7 @@ class DevelopmentBranch(GWFBranch):
     can_be_destination = True
     allow_prefixes = FeatureBranch.all_prefixes
     has_stabilization = False
+    stabilization_micro = None
     latest_minor = -1
 
     def __eq__(self, other):
@@ -1026,10 +1027,15 @@ class BranchCascade(object):
                 self.target_versions.append('%d.%d.%d' % (
                     major, minor, stb_branch.micro))
             elif dev_branch and dev_branch.has_minor is True:
-                offset = 2 if dev_branch.has_stabilization else 1
+                # next unreleased patch, skipping the one held by the
+                # (untargeted) stabilization branch
+                micro = dev_branch.micro + 1
+                if (dev_branch.has_stabilization and
+                        dev_branch.stabilization_micro == micro):
+                    micro += 1
 
                 self.target_versions.append('%d.%d.%d' % (
-                    major, minor, dev_branch.micro + offset))
+                    major, minor, micro))
             elif dev_branch and dev_branch.has_minor is False:
                 self.target_versions.append(
                     f"{major}."
@@ -1077,6 +1083,7 @@ class BranchCascade(object):
                     raise errors.DevBranchDoesNotExist(
                         'development/%d.%d' % (major, minor))
                 dev_branch.has_stabilization = True
+                dev_branch.stabilization_micro = stb_branch.micro
 
             # remove untargetted branches from cascade
             if dst_branch == dev_branch:
